@@ -4,7 +4,7 @@ from __future__ import annotations
 import z3
 
 from engine.common import Report, Ob
-from props._util import run_fv, section
+from props._util import run_fv, section, sections_parallel
 
 REL = "matid/clustering/sbc.py"
 
@@ -12,10 +12,7 @@ REL = "matid/clustering/sbc.py"
 def run():
     rep = Report("C01")
     rep.trusted_base = ["z3 (quantified arrays/EPR-style formulas)", "pyvc symbolic executor"]
-    section(rep, "localize", lambda: _localize(rep))
-    section(rep, "clean", lambda: _clean(rep))
-    section(rep, "merge", lambda: _merge(rep))
-    section(rep, "cluster.init", lambda: _init(rep))
+    sections_parallel(rep, [("localize", _localize), ("clean", _clean), ("merge", _merge), ("cluster.init", _init)])
     return rep
 
 
